@@ -11,8 +11,10 @@ Local Open Scope Z_scope.
 Fixpoint core {R} (p : prog R) : Prop :=
   match p with
   | Ret _ => True
-  | Emit es k => (exists e, es = [e] /\ plain e) /\ core k
-  | Act f k => (forall g, (g_buf (fst (fst (f g))) = g_buf g /\ g_epoch (fst (fst (f g))) = g_epoch g) /\ exists e, snd (f g) = [e] /\ plain e) /\
+  | Emit es k => (exists e, es = [e] /\ plain e /\ is_cli "ddone" e = false) /\ core k
+  | Act f k => (forall g, (g_buf (fst (fst (f g))) = g_buf g /\ g_epoch (fst (fst (f g))) = g_epoch g /\
+                           g_quit (fst (fst (f g))) = g_quit g /\ g_ndone (fst (fst (f g))) = g_ndone g) /\
+                          exists e, snd (f g) = [e] /\ plain e /\ is_cli "ddone" e = false) /\
                forall v, core (k v)
   end.
 
@@ -28,13 +30,13 @@ Ltac core_act :=
   intros g; cbv beta delta [a_begin a_proc_faa a_head_ld a_tid_cas a_new_head_ld a_head_cas a_tid_st a_tid_ld a_acc_ld a_acc_st
                             a_ctl_ld a_ctl_fxor a_lock_xchg a_lock_ld a_lock_st a_src_st a_src_ld a_payload_ld acc];
   repeat match goal with |- context [if ?c then _ else _] => destruct c end;
-  cbn; (split; [split; reflexivity|eexists; split; [reflexivity|apply plain_acc]]).
+  cbn; (split; [repeat split; reflexivity|eexists; split; [reflexivity|split; [apply plain_acc|reflexivity]]]).
 
 Ltac core_act_w :=
   let g := fresh "g" in
   intros g; cbv beta delta [a_begin acc]; cbn; (split; [reflexivity|eexists; split; [reflexivity|apply plain_acc]]).
 
-Ltac core_emit := split; [eexists; split; [reflexivity|repeat split]|].
+Ltac core_emit := split; [eexists; split; [reflexivity|split; [repeat split|reflexivity]]|].
 
 Lemma core_alloc_reuse me l : core (alloc_reuse me l).
 Proof. induction l as [|m r IH]; cbn [alloc_reuse core]; auto. split; [core_act|]. intros v. destruct (vz v =? 1); cbn; auto. Qed.
@@ -148,9 +150,9 @@ Section Safe.
   Proof.
     induction p as [r|es k IH|f k IH]; intros Hc l Q HQ; cbn [Conc.safe core] in *.
     - apply HQ.
-    - destruct Hc as ((e & -> & Hp) & Hk). intros g a tr HI Hv. exists a. split; [rewrite tag1; eapply InvB_plain; eauto|].
+    - destruct Hc as ((e & -> & Hp & _) & Hk). intros g a tr HI Hv. exists a. split; [rewrite tag1; eapply InvB_plain; eauto|].
       split; [intros ? ?; reflexivity|]. rewrite Hv. apply IH; auto.
-    - destruct Hc as (Hf & Hk). intros g a tr HI Hv. destruct (Hf g) as ((Eg & _) & e & Ee & Hp). exists a. rewrite Ee.
+    - destruct Hc as (Hf & Hk). intros g a tr HI Hv. destruct (Hf g) as ((Eg & _) & e & Ee & Hp & _). exists a. rewrite Ee.
       split; [rewrite tag1; eapply InvB_plain; eauto|]. split; [intros ? ?; reflexivity|]. rewrite Hv. apply IH; auto.
   Qed.
 
@@ -173,7 +175,8 @@ Section Safe.
     split; [intros ? ?; reflexivity|]. rewrite Hv. exact Hk.
   Qed.
 
-  Variables (flips sfuel : nat) (cap : Z) (cnt : bool).
+  Variables (flips sfuel : nat) (cap : Z) (cnt : bool) (mb : prog bool).
+  Hypothesis Hmb : core mb.
   Variable t : nat.
   Hypothesis Ht : (t < N)%nat.
 
@@ -193,11 +196,11 @@ Section Safe.
   Qed.
 
   Definition PPush (rf : nat) : Prop := forall p e hs (Q : bool -> L2 -> Prop),
-    Q true (hs, false) -> (forall l', Q false l') -> safeB t (push_buffer flips sfuel cap cnt rf p e) (p :: hs, false) Q.
+    Q true (hs, false) -> (forall l', Q false l') -> safeB t (push_buffer flips sfuel cap cnt mb rf p e) (p :: hs, false) Q.
   Definition PSync (rf : nat) : Prop := forall hs (Q : bool -> L2 -> Prop),
-    Q true (hs, false) -> (forall l', Q false l') -> safeB t (synchronize flips sfuel cap cnt rf) (hs, false) Q.
+    Q true (hs, false) -> (forall l', Q false l') -> safeB t (synchronize flips sfuel cap cnt mb rf) (hs, false) Q.
   Definition PClear (rf : nat) : Prop := forall n hs (Q : bool -> L2 -> Prop),
-    Q true (hs, false) -> (forall l', Q false l') -> safeB t (clear_buffer flips sfuel cap cnt rf n) (hs, false) Q.
+    Q true (hs, false) -> (forall l', Q false l') -> safeB t (clear_buffer flips sfuel cap cnt mb rf n) (hs, false) Q.
 
   Lemma safe_gpb rf : PPush rf /\ PSync rf /\ PClear rf.
   Proof.
@@ -211,7 +214,9 @@ Section Safe.
       apply safeB_act_plain; [core_act'|]. intros _.
       apply safeB_bind. apply safe_core; [apply core_lock_loops|]. intros [|]; [|cbn; apply HF].
       cbv beta iota. apply safeB_act_plain; [core_act'|]. intros n.
-      apply safeB_bind. apply safe_core; [apply core_flips|]. intros [|]; [|cbn; apply HF].
+      apply safeB_bind. apply safe_core; [exact Hmb|]. intros [|]; [|cbn; apply HF].
+      cbv beta iota. apply safeB_bind. apply safe_core; [apply core_flips|]. intros [|]; [|cbn; apply HF].
+      cbv beta iota. apply safeB_bind. apply safe_core; [exact Hmb|]. intros [|]; [|cbn; apply HF].
       cbv beta iota. apply safeB_bind. apply safe_core; [apply core_unlock|]. intros _.
       apply IHc; auto. }
     assert (HC : PClear (S f)).
@@ -242,7 +247,8 @@ End Safe.
 Section Safe2.
   Variable N : nat.
   Notation safeB := (@Conc.safe G V ev Aux2 L2 view2 (InvB N)).
-  Variables (flips sfuel : nat) (cap : Z) (cnt : bool) (rf : nat).
+  Variables (flips sfuel : nat) (cap : Z) (cnt : bool) (mb : prog bool) (rf : nat).
+  Hypothesis Hmb : core mb.
   Variable t : nat.
   Hypothesis Ht : (t < N)%nat.
 
@@ -263,11 +269,11 @@ Section Safe2.
   Qed.
 
   Lemma safeB_push_all e ps : forall (Q : bool -> L2 -> Prop),
-    Q true ([], false) -> (forall l', Q false l') -> safeB t (push_all flips sfuel cap cnt rf e ps) (ps, false) Q.
+    Q true ([], false) -> (forall l', Q false l') -> safeB t (push_all flips sfuel cap cnt mb rf e ps) (ps, false) Q.
   Proof.
     induction ps as [|p r IH]; intros Q HT HF; cbn [push_all].
     - exact HT.
-    - apply safeB_bind. apply (proj1 (safe_gpb N flips sfuel cap cnt t Ht rf)); [|intros l'; cbn; apply HF].
+    - apply safeB_bind. apply (proj1 (safe_gpb N flips sfuel cap cnt mb Hmb t Ht rf)); [|intros l'; cbn; apply HF].
       cbv beta iota. apply IH; auto.
   Qed.
 
@@ -275,7 +281,7 @@ Section Safe2.
 
   Lemma safeB_gpb_retire ps tail (Q : bool -> L2 -> Prop) :
     (tail = [] \/ exists e, tail = [e] /\ plain e) ->
-    Q true ([], false) -> (forall l', Q false l') -> safeB t (gpb_retire flips sfuel cap cnt rf ps tail) ([], false) Q.
+    Q true ([], false) -> (forall l', Q false l') -> safeB t (gpb_retire flips sfuel cap cnt mb rf ps tail) ([], false) Q.
   Proof.
     intros Htail HT HF. unfold gpb_retire. apply safeB_emit_retires. cbn [app].
     apply safeB_act_plain; [core_act'|]. intros e. apply safeB_bind. apply safeB_push_all; [|intros l'; cbn; apply HF].
@@ -286,16 +292,16 @@ Section Safe2.
   Qed.
 
   Lemma safeB_gpb_sync (Q : bool -> L2 -> Prop) :
-    Q true ([], false) -> (forall l', Q false l') -> safeB t (gpb_sync flips sfuel cap cnt rf) ([], false) Q.
+    Q true ([], false) -> (forall l', Q false l') -> safeB t (gpb_sync flips sfuel cap cnt mb rf) ([], false) Q.
   Proof.
     intros HT HF. unfold gpb_sync, cli. apply safeB_emit_plain; [repeat split|].
-    apply safeB_bind. apply (proj1 (proj2 (safe_gpb N flips sfuel cap cnt t Ht rf))); [|intros l'; cbn; apply HF].
+    apply safeB_bind. apply (proj1 (proj2 (safe_gpb N flips sfuel cap cnt mb Hmb t Ht rf))); [|intros l'; cbn; apply HF].
     cbv beta iota. apply safeB_emit_plain; [repeat split|exact HT].
   Qed.
 
   Definition QB : option lst -> L2 -> Prop := fun r l' => match r with Some _ => l' = ([], false) | None => True end.
 
-  Lemma safeB_run_bop s o : safeB t (run_bop flips sfuel cap cnt rf t s o) ([], false) QB.
+  Lemma safeB_run_bop s o : safeB t (run_bop flips sfuel cap cnt mb rf t s o) ([], false) QB.
   Proof.
     destruct o as [o|ps]; cbn [run_bop].
     - destruct o; try (apply safe_core; [apply core_run_op; reflexivity|]; intros [s'|]; cbn; auto).
@@ -312,7 +318,7 @@ Section Safe2.
     split; [|exact I]. intros t' Hne. unfold view2. cbn [fst snd]. destruct (Nat.eqb_spec t' t); [contradiction|reflexivity].
   Qed.
 
-  Lemma safeB_run_bops os : forall s, safeB t (run_bops flips sfuel cap cnt rf t s os) ([], false) (@Conc.QTrue L2).
+  Lemma safeB_run_bops os : forall s, safeB t (run_bops flips sfuel cap cnt mb rf t s os) ([], false) (@Conc.QTrue L2).
   Proof.
     induction os as [|o r IH]; intros s; cbn [run_bops].
     - apply safeB_bind. apply safe_core; [apply core_finish|]. intros _. apply safeB_done.
@@ -322,27 +328,36 @@ Section Safe2.
       + apply safeB_emit_plain; [repeat split|exact I].
   Qed.
 
-  Lemma safeB_thread os : safeB t (bthread_prog flips sfuel cap cnt rf t os) ([], false) (@Conc.QTrue L2).
+  Lemma safeB_thread os : safeB t (bthread_prog flips sfuel cap cnt mb rf t os) ([], false) (@Conc.QTrue L2).
   Proof.
     unfold bthread_prog. apply safeB_act_plain; [core_act_w|]. intros _. apply safeB_run_bops.
   Qed.
 End Safe2.
 
-Lemma binit_ok flips sfuel rf cap cnt ths :
-  Conc.cfg_ok view2 (InvB (List.length ths)) (binit_cfg flips sfuel rf cap cnt ths).
+Lemma number_length {A} (l : list A) : forall n, List.length (number n l) = List.length l.
+Proof. induction l as [|x r IH]; intros n; cbn; auto. Qed.
+
+Lemma xinit_ok flips sfuel rf cap cnt mb extra ths :
+  core mb -> Forall core extra ->
+  Conc.cfg_ok view2 (InvB (List.length ths)) (xinit_cfg flips sfuel rf cap cnt mb extra ths).
 Proof.
-  exists ([], fun _ => false). split.
-  - cbn [binit_cfg Conc.shared Conc.trace]. constructor; cbn; try discriminate; auto.
+  intros Hmb Hex. exists ([], fun _ => false). split.
+  - cbn [xinit_cfg Conc.shared Conc.trace]. constructor; cbn; try discriminate; auto.
     + intros x [].
     + intros t0 i (e & H & _). destruct i; discriminate.
-  - intros t p Hp. cbn [binit_cfg Conc.threads] in Hp. rewrite nth_error_map in Hp.
-    destruct (nth_error (number O ths) t) as [x|] eqn:E; [|discriminate]. inversion Hp; subst p.
-    assert (Hlen : (t < List.length ths)%nat).
-    { assert (X : forall {A} (l : list A) n, List.length (number n l) = List.length l) by (induction l; intros; cbn; auto).
-      rewrite <- (X _ ths O). apply nth_error_Some. congruence. }
-    assert (Hf : fst x = t) by (apply RcuGpSafe.nth_error_number in E; cbn in E; exact E).
-    rewrite Hf. unfold view2. cbn. apply safeB_thread. exact Hlen.
+  - intros t p Hp. cbn [xinit_cfg Conc.threads] in Hp.
+    destruct (Nat.lt_ge_cases t (List.length ths)) as [Hlt|Hge].
+    + rewrite nth_error_app1 in Hp by (rewrite map_length, number_length; exact Hlt). rewrite nth_error_map in Hp.
+      destruct (nth_error (number O ths) t) as [x|] eqn:E; [|discriminate]. inversion Hp; subst p.
+      assert (Hf : fst x = t) by (apply RcuGpSafe.nth_error_number in E; cbn in E; exact E).
+      rewrite Hf. unfold view2. cbn. apply safeB_thread; assumption.
+    + rewrite nth_error_app2 in Hp by (rewrite map_length, number_length; exact Hge).
+      apply nth_error_In in Hp. rewrite Forall_forall in Hex. unfold view2. cbn. apply safe_core; [apply Hex; exact Hp|]. intros; exact I.
 Qed.
+
+Lemma binit_ok flips sfuel rf cap cnt ths :
+  Conc.cfg_ok view2 (InvB (List.length ths)) (binit_cfg flips sfuel rf cap cnt ths).
+Proof. apply xinit_ok; [exact I|constructor]. Qed.
 
 (** ** theorems for every schedule *)
 Definition all_done (n : nat) (tr : trace) : Prop := forall t, (t < n)%nat -> exists i, at_ tr i t is_done.
@@ -351,29 +366,12 @@ Definition all_done (n : nat) (tr : trace) : Prop := forall t, (t < n)%nat -> ex
 Definition full_trace (n : nat) (c : Conc.config G V ev) : trace :=
   Conc.trace c ++ Conc.tag n (destruct_events (Conc.shared c)).
 
-Theorem rcu_dispose_at_most_once_all flips sfuel rf cap cnt ths c :
-  Conc.reach (binit_cfg flips sfuel rf cap cnt ths) c ->
-  forall p, (ndisp p (Conc.trace c) <= nret p (Conc.trace c))%nat.
-Proof.
-  intros Hr p. destruct (Conc.reach_Inv (binit_ok flips sfuel rf cap cnt ths) Hr) as (a & HI). rewrite (B1 _ _ _ _ HI p). lia.
-Qed.
-
 Lemma hands_empty N g a tr : InvB N g a tr -> all_done N tr -> fst a = [].
 Proof.
   intros HI Hd. destruct (fst a) as [|[t p] r] eqn:E; [reflexivity|exfalso].
   assert (Ht : (t < N)%nat) by (apply (B4 _ _ _ _ HI (t, p)); rewrite E; left; reflexivity).
   destruct (Hd t Ht) as (i & Hat). pose proof (B3 _ _ _ _ HI t (B5 _ _ _ _ HI t i Hat)) as X.
   rewrite E, mine_cons_same in X. discriminate.
-Qed.
-
-(** nothing is lost: when every thread has completed its program each retired object has been disposed or sits in
-    the buffer - in particular an entry whose push found the buffer full was disposed by the caller (overflow path) *)
-Theorem rcu_quiescent_conservation_all flips sfuel rf cap cnt ths c :
-  Conc.reach (binit_cfg flips sfuel rf cap cnt ths) c -> all_done (List.length ths) (Conc.trace c) ->
-  forall p, nret p (Conc.trace c) = (ndisp p (Conc.trace c) + cz p (map fst (g_buf (Conc.shared c))))%nat.
-Proof.
-  intros Hr Hd p. destruct (Conc.reach_Inv (binit_ok flips sfuel rf cap cnt ths) Hr) as (a & HI).
-  rewrite (B1 _ _ _ _ HI p), (hands_empty _ _ _ _ HI Hd). change (cz p (map snd [])) with O. lia.
 Qed.
 
 Lemma cnt_destruct_dispose n p buf :
@@ -390,12 +388,48 @@ Lemma cnt_destruct_retire n p buf :
   cnt_ev (is_retire p) (Conc.tag n (map (fun x : Z * Z => EvCli "dispose" [fst x]) buf)) = O.
 Proof. induction buf as [|[q e] r IH]; [reflexivity|]. unfold cnt_ev, Conc.tag in *. cbn. exact IH. Qed.
 
+Section Thms.
+  Variables (flips sfuel rf : nat) (cap : Z) (cnt : bool) (mb : prog bool) (extra : list (Conc.thread G V ev)) (ths : list (list bop)).
+  Hypothesis Hmb : core mb.
+  Hypothesis Hex : Forall core extra.
+  Variable c : Conc.config G V ev.
+  Hypothesis Hr : Conc.reach (xinit_cfg flips sfuel rf cap cnt mb extra ths) c.
+
+  Theorem x_dispose_at_most_once : forall p, (ndisp p (Conc.trace c) <= nret p (Conc.trace c))%nat.
+  Proof.
+    intros p. destruct (Conc.reach_Inv (xinit_ok flips sfuel rf cap cnt mb extra ths Hmb Hex) Hr) as (a & HI). rewrite (B1 _ _ _ _ HI p). lia.
+  Qed.
+
+  Theorem x_quiescent_conservation : all_done (List.length ths) (Conc.trace c) ->
+    forall p, nret p (Conc.trace c) = (ndisp p (Conc.trace c) + cz p (map fst (g_buf (Conc.shared c))))%nat.
+  Proof.
+    intros Hd p. destruct (Conc.reach_Inv (xinit_ok flips sfuel rf cap cnt mb extra ths Hmb Hex) Hr) as (a & HI).
+    rewrite (B1 _ _ _ _ HI p), (hands_empty _ _ _ _ HI Hd). change (cz p (map snd [])) with O. lia.
+  Qed.
+
+  Theorem x_destruct_drains : all_done (List.length ths) (Conc.trace c) ->
+    forall n p, ndisp p (full_trace n c) = nret p (full_trace n c).
+  Proof.
+    intros Hd n p. unfold full_trace, ndisp, nret, destruct_events. rewrite !cnt_ev_app, cnt_destruct_dispose, cnt_destruct_retire.
+    pose proof (x_quiescent_conservation Hd p) as X. unfold nret, ndisp in X. lia.
+  Qed.
+End Thms.
+
+Theorem rcu_dispose_at_most_once_all flips sfuel rf cap cnt ths c :
+  Conc.reach (binit_cfg flips sfuel rf cap cnt ths) c ->
+  forall p, (ndisp p (Conc.trace c) <= nret p (Conc.trace c))%nat.
+Proof. intros Hr. eapply x_dispose_at_most_once; [| |exact Hr]; [exact I|constructor]. Qed.
+
+(** nothing is lost: when every thread has completed its program each retired object has been disposed or sits in
+    the buffer - in particular an entry whose push found the buffer full was disposed by the caller (overflow path) *)
+Theorem rcu_quiescent_conservation_all flips sfuel rf cap cnt ths c :
+  Conc.reach (binit_cfg flips sfuel rf cap cnt ths) c -> all_done (List.length ths) (Conc.trace c) ->
+  forall p, nret p (Conc.trace c) = (ndisp p (Conc.trace c) + cz p (map fst (g_buf (Conc.shared c))))%nat.
+Proof. intros Hr. eapply x_quiescent_conservation; [| |exact Hr]; [exact I|constructor]. Qed.
+
 (** no later than the destruction of the singleton every retired object has been given to its disposer exactly as
     often as it was retired (once, for a client that retires an object once) *)
 Theorem rcu_destruct_drains_all flips sfuel rf cap cnt ths c :
   Conc.reach (binit_cfg flips sfuel rf cap cnt ths) c -> all_done (List.length ths) (Conc.trace c) ->
   forall p, ndisp p (full_trace (List.length ths) c) = nret p (full_trace (List.length ths) c).
-Proof.
-  intros Hr Hd p. unfold full_trace, ndisp, nret, destruct_events. rewrite !cnt_ev_app, cnt_destruct_dispose, cnt_destruct_retire.
-  pose proof (rcu_quiescent_conservation_all _ _ _ _ _ _ _ Hr Hd p) as X. unfold nret, ndisp in X. lia.
-Qed.
+Proof. intros Hr Hd p. eapply x_destruct_drains; [| |exact Hr|exact Hd]; [exact I|constructor]. Qed.
